@@ -54,6 +54,60 @@ Theorem C03_binop_without_reset_writes_operand :
 Proof. exact binop_without_reset_writes_operand. Qed.
 Print Assumptions C03_binop_without_reset_writes_operand.
 
+(* (d) Installing an array that was produced under other labels (what every in-place pair function does with the
+   factors of a split / contraction: tensor_compress_bond, tensor_canonize_bond, ...): moved by `perm_like src nix` it
+   denotes the same labelled tensor, for every rank, shape and pair of label orders ... *)
+Theorem C03_install_like_same_tensor : forall src nix shape data (s : nat -> nat),
+  NoDup src -> NoDup nix -> (forall i, In i nix <-> In i src) ->
+  length shape = length src -> Forall2 lt (map s src) shape ->
+  tinds G (install_like src nix shape data) = nix /\
+  tval G (install_like src nix shape data) s = tval G (arr_tensor src shape data) s.
+Proof. exact install_like_same_tval. Qed.
+Print Assumptions C03_install_like_same_tensor.
+
+(* ... installed without the move it is a different tensor (so the move cannot be dropped as redundant) *)
+Theorem C03_install_raw_is_observable :
+  exists src nix shape data (s : nat -> nat), NoDup src /\ NoDup nix /\ (forall i, In i nix <-> In i src) /\
+    tval G (install_raw nix shape data) s <> tval G (arr_tensor src shape data) s.
+Proof. exact install_raw_is_observable. Qed.
+Print Assumptions C03_install_raw_is_observable.
+
+(* Tensor.transpose_like (one label may differ): the order it picks is a permutation of the tensor's own labels and
+   agrees with the other tensor's order on every shared label, so (d) applies to it. *)
+Theorem C03_like_order_is_permutation : forall src dst nix, NoDup src -> NoDup dst -> length src = length dst ->
+  like_order src dst = Some nix ->
+  NoDup nix /\ (forall i, In i nix <-> In i src) /\ length nix = length dst /\
+  (forall j, j < length dst -> In (nth j dst 0) src -> nth j nix 0 = nth j dst 0).
+Proof. exact like_order_is_permutation. Qed.
+Print Assumptions C03_like_order_is_permutation.
+
+(* (e) The sum / difference of structured networks (`a + b`, `a - b`, `a += b`, `a -= b`, add_MPS, add_MPO, add_PEPS,
+   add_PEPO = tensor_network_ag_sum): for every number of sites and every negate / inplace flag the modelled body
+   never writes a tensor of the second operand, and with inplace=False none of the first operand either ... *)
+Theorem C03_agsum_never_writes_second_operand : forall inplace n negate,
+  existsb (owner_eqb OwnB) (agsum_writes inplace n negate) = false.
+Proof. exact agsum_never_writes_second_operand. Qed.
+Print Assumptions C03_agsum_never_writes_second_operand.
+
+Theorem C03_agsum_plain_writes_no_operand : forall n negate,
+  forallb (fun o => negb (owner_eqb OwnA o || owner_eqb OwnB o)) (agsum_writes false n negate) = true.
+Proof. exact agsum_plain_writes_no_operand. Qed.
+Print Assumptions C03_agsum_plain_writes_no_operand.
+
+(* ... hence every object the caller can see other than the result's and the temporaries' is observably unchanged *)
+Theorem C03_agsum_leaves_operands_unchanged : forall h a b r t payload ids inplace n negate,
+  (forall k o, In o ids -> r k <> o /\ t k <> o /\ (inplace = true -> a k <> o)) ->
+  fingerprint (run h (agsum_body a b r t payload 0 (agsum_writes inplace n negate))) ids = fingerprint h ids.
+Proof. exact agsum_leaves_operands_unchanged. Qed.
+Print Assumptions C03_agsum_leaves_operands_unchanged.
+
+(* ... and the per-site copy of the second operand's tensor is what this rests on: relabel-and-copy only when there
+   is something to relabel, and `a - b` negates the caller's b. *)
+Theorem C03_agsum_without_copy_writes_operand :
+  exists n, existsb (owner_eqb OwnB) (agsum_loop false false n true) = true.
+Proof. exact agsum_without_copy_writes_operand. Qed.
+Print Assumptions C03_agsum_without_copy_writes_operand.
+
 Example C03_transpose_example :
   transpose_data [1; 0] [2; 3] [(1,0); (2,0); (3,0); (4,0); (5,0); (6,0)]%Z
   = [(1,0); (4,0); (2,0); (5,0); (3,0); (6,0)]%Z.
